@@ -130,3 +130,19 @@ check('C10',
       'engine rebuilt from the published composite emitting equal rows.',
       'bookkeeping claim reads engine internals when present; two in-flight '
       'families are listed known findings')
+check('C11',
+      'Leaf dividers (split on ints and on doubles, binomial) are translated '
+      'per run from their current source into bit-vector / IEEE-754 SMT terms '
+      'and decided for every 64-bit state inside the stated bound, with both '
+      'RNG outcomes as free variables; counterexamples are replayed on the '
+      'real function. Through the engine: a mother with nine variables under '
+      'set / split / zero / set_value / null / split_dict / user dividers with '
+      'topology and config / a branch-level divider, symbolic values and '
+      'symbolic presence of explicit daughter state, copied or explicit '
+      'processes, one or two generations; shares, conservation, distinct '
+      'processes and independence under in-place updates are solver-decided.',
+      'kernel encoding validated on fixed inputs against the real function; '
+      'integers |x| < 2^62, doubles >= 2^-1021 or 0; quantities outside',
+      technique='AST -> SMT-LIB (QF_BV + FP) kernel translation decided by z3, '
+                'plus bounded symbolic execution of Store.divide with z3 '
+                'deciding every claim')
